@@ -28,9 +28,14 @@ type c14Case struct {
 	Topics []int    `json:"topics,omitempty"`
 	Exp    []int    `json:"exp,omitempty"` // indices into Topics of messages published with expiry 1 s (elapsed when dequeued)
 	Pkts   []c14Pkt `json:"pkts,omitempty"`
+	// kind "bound": Distinct topics are published once each, then the first Repeat of them again
+	Distinct int `json:"distinct,omitempty"`
+	Repeat   int `json:"repeat,omitempty"`
 }
 
 type c14Obs struct {
+	// kind "bound": summary of a long stream (Max aliases, Distinct > Max distinct topics, then repeats)
+	Recv, AliasMin, AliasMax, Mismatch, Undecodable int
 	Out    [][2]*int `json:"out,omitempty"` // (topic idx or nil, alias or nil)
 	Routed []int     `json:"routed,omitempty"`
 	Term   bool      `json:"term,omitempty"`
@@ -51,6 +56,11 @@ func (p *c14Prop) Parallel() int { return 8 }
 func ip(i int) *int { return &i }
 
 func (p *c14Prop) Gen(r *Rng, i int, tier string) interface{} {
+	if i%50 == 49 {
+		// every alias value gets bound, more topics follow, early topics recur
+		m := []int{3, 17, 255, 256}[r.Intn(4)]
+		return &c14Case{Kind: "bound", V5: true, Max: m, Distinct: m + 1 + r.Intn(5), Repeat: 3 + r.Intn(5)}
+	}
 	if i%2 == 0 {
 		c := &c14Case{Kind: "out", V5: !r.Chance(15), Max: []int{0, 1, 2, 5, 65535}[r.Intn(5)]}
 		distinct := 1 + r.Intn(8)
@@ -149,6 +159,9 @@ func (p *c14Prop) Run(ci interface{}) interface{} {
 		return obs
 	}
 	defer b.Close(10 * time.Second)
+	if c.Kind == "bound" {
+		return p.runBound(c, b)
+	}
 	if c.Kind == "out" {
 		ver := mqttp.ProtocolV311
 		if c.V5 {
@@ -316,6 +329,9 @@ func cOptInt(p *int) string {
 func (p *c14Prop) Coq(ci interface{}, oi interface{}) string {
 	c := ci.(*c14Case)
 	o := oi.(*c14Obs)
+	if c.Kind == "bound" {
+		return fmt.Sprintf("(CBound %s %s %s %s %s %s %s %s %s)", cN(uint64(c.Max)), cN(uint64(c.Distinct)), cN(uint64(c.Repeat)), cN(uint64(o.Recv)), cN(uint64(o.AliasMin)), cN(uint64(o.AliasMax)), cN(uint64(o.Mismatch)), cN(uint64(o.Undecodable)), cBool(o.Err == ""))
+	}
 	if c.Kind == "out" {
 		isExp := map[int]bool{}
 		for _, k := range c.Exp {
@@ -342,8 +358,88 @@ func (p *c14Prop) Coq(ci interface{}, oi interface{}) string {
 	return fmt.Sprintf("(CIn %s %s %s %s %s %s)", cN(uint64(c.Max)), cList(pk), cNs(rt), cBool(o.Term), cN(uint64(o.Reason)), cBool(o.Err == ""))
 }
 
+// runBound: every alias value the client allows gets bound and more topics follow; what the subscriber sees
+// must resolve, under its own alias table, to the topic that was published (the payload carries its number)
+func (p *c14Prop) runBound(c *c14Case, b *Broker) interface{} {
+	obs := &c14Obs{}
+	sc := b.Dial()
+	if _, err := sc.Connect(ConnectOpts{ID: "sub", Ver: mqttp.ProtocolV50, Clean: true, AliasMax: uint16(c.Max)}); err != nil {
+		obs.Err = "sub: " + err.Error()
+		return obs
+	}
+	s := sc.Auto(false)
+	_ = s.SendL(mkSubscribe(mqttp.ProtocolV50, 1, []string{"al/#"}, []byte{0}))
+	if !s.WaitFor(5*time.Second, func() bool { return len(s.Others) >= 1 }) {
+		obs.Err = "no suback"
+		return obs
+	}
+	pc := b.Dial()
+	if _, err := pc.Connect(ConnectOpts{ID: "pub", Ver: mqttp.ProtocolV311, Clean: true}); err != nil {
+		obs.Err = "pub: " + err.Error()
+		return obs
+	}
+	total := c.Distinct + c.Repeat
+	for k := 0; k < total; k++ {
+		t := k
+		if k >= c.Distinct {
+			t = k - c.Distinct
+		}
+		pl := []byte{byte(t >> 16), byte(t >> 8), byte(t)}
+		if err := pc.Send(mkPublish(mqttp.ProtocolV311, fmt.Sprintf("al/%d", t), pl, 0, false, 0)); err != nil {
+			obs.Err = "publish: " + err.Error()
+			return obs
+		}
+	}
+	s.WaitFor(30*time.Second, func() bool { return len(s.Pubs) >= total })
+	s.mu.Lock()
+	defer s.mu.Unlock()
+	obs.Recv = len(s.Pubs)
+	obs.AliasMin, obs.AliasMax = 1<<30, 0
+	table := map[int]string{}
+	for i, m := range s.Pubs {
+		if len(m.Payload()) != 3 {
+			obs.Undecodable++
+			continue
+		}
+		truth := fmt.Sprintf("al/%d", int(m.Payload()[0])<<16|int(m.Payload()[1])<<8|int(m.Payload()[2]))
+		alias := -1
+		if prop := m.PropertyGet(mqttp.PropertyTopicAlias); prop != nil {
+			if v, e := prop.AsShort(); e == nil {
+				alias = int(v)
+			}
+		}
+		topic := m.Topic()
+		if i < len(s.AliasOnly) && s.AliasOnly[i] {
+			topic = "" // the wire view: the client's reader has already resolved it
+		}
+		if alias >= 0 {
+			if alias < obs.AliasMin {
+				obs.AliasMin = alias
+			}
+			if alias > obs.AliasMax {
+				obs.AliasMax = alias
+			}
+			if topic != "" {
+				table[alias] = topic
+			} else {
+				topic = table[alias]
+			}
+		}
+		if topic != truth {
+			obs.Mismatch++
+		}
+	}
+	if obs.AliasMax == 0 && obs.AliasMin == 1<<30 {
+		obs.AliasMin = 0
+	}
+	return obs
+}
+
 func (p *c14Prop) Class(ci interface{}, oi interface{}) (string, bool) {
 	c := ci.(*c14Case)
+	if c.Kind == "bound" {
+		return "bound", true
+	}
 	if c.Kind == "out" {
 		d := map[int]bool{}
 		for _, t := range c.Topics {
